@@ -131,10 +131,16 @@ pub fn build_crate(files: &[(String, String)], externs: &[ExternDef]) -> Result<
     }
     for (mpath, name, size, align) in externs {
         let node = insert(&mut root, mpath);
-        node.items.push(format!(
-            "#[repr(C, align({}))] pub struct {name} {{ pub __bytes: [u8; {size}] }}",
-            (*align).max(1)
-        ));
+        match crate::l2::elem_for_align((*align).max(1) as i64) {
+            Some((elem, a)) if (*size as i64) % a == 0 => node.items.push(format!(
+                "#[repr(C)] pub struct {name} {{ pub __elems: [{elem}; {}] }}",
+                *size as i64 / a
+            )),
+            _ => node.items.push(format!(
+                "#[repr(C, align({}))] pub struct {name} {{ pub __bytes: [u8; {size}] }}",
+                (*align).max(1)
+            )),
+        }
     }
     let mut text = String::from(PRELUDE);
     let mut body = String::new();
